@@ -272,4 +272,160 @@ theorem onsets_back_barebones_pickup (ht : Bool) (a : List ARow) (san : Bool) (b
   rw [backTime_snd, hq]
   simp
 
+/-- **An array with division AND beat columns that agree gives its beats back** (an array taken from
+    a part with a pickup: `onset_div = divisions × quarters + neg`, beat 0 lies `neg` divisions after
+    time 0, some beat is negative, the pickup is shorter than a bar): the pickup measure is `[0, neg)`,
+    the triples are copied, and the beat column of the new part's note array is the beat column that
+    went in (the quarter column its quarters).  `ht`: the array has time signature columns (then they
+    hold the signature's beat type; without them the code takes 4). -/
+theorem onsets_back_both (ht : Bool) (a : List ARow) (dv : Option Nat) (s : Nat × Nat) (san : Bool)
+    (b : Back) (neg : Int)
+    (h : fromArrayBack true true ht a dv (some s) san = .ok b)
+    (hd : 0 < b.divs) (hs : 0 < s.2)
+    (hcons : ∀ r ∈ a, (r.onsetDiv : Rat) = (b.divs : Rat) * (r.onsetBeat * (4 / (s.2 : Rat))) + (neg : Rat))
+    (hcol : if ht then ∀ r ∈ a, r.tsBeatType = (s.2 : Int) else (s.2 : Int) = 4)
+    (hneg : ∃ r ∈ a, r.onsetBeat < 0)
+    (hshort : (neg : Rat) < barDivs s b.divs) :
+    b.anacrusis = neg ∧ b.m1 = some neg ∧
+    Forall₂ (fun (r : ARow) (n : (Int × Int × Int) × (Rat × Rat)) =>
+        n.1 = divTriple r ∧ n.2.2 = r.onsetBeat ∧ n.2.1 = r.onsetBeat * (4 / (s.2 : Rat)))
+      (sortArr true a) b.notes := by
+  obtain ⟨l, hfa, hana, hm1, hpick, hnotes⟩ := fromArrayBack_ok true true ht a dv (some s) san b h
+  have hl := fromArray_div_eq true ht a dv b.divs l hfa
+  have hdq : (0 : Rat) < (b.divs : Rat) := by exact_mod_cast hd
+  have hsq : (0 : Rat) < (s.2 : Rat) := by exact_mod_cast hs
+  have hmem : ∀ r, r ∈ sortArr true a → r ∈ a := fun r hr => (sortArr_perm true a).mem_iff.mp hr
+  have hf : Forall₂ (fun (r : ARow) (x : Int × Int × Int) =>
+      (x.1 : Rat) = (b.divs : Rat) * (r.onsetBeat * (4 / (((s.2 : Nat) : Int) : Rat))) + (neg : Rat))
+      (sortArr true a) l := by
+    rw [hl, forall₂_map_right_iff, forall₂_same]
+    intro r hr
+    have := hcons r (hmem r hr)
+    simpa [divTriple] using this
+  have hcol' : if ht then ∀ r ∈ sortArr true a, r.tsBeatType = (s.2 : Int) else (s.2 : Int) = 4 := by
+    cases ht with
+    | false => simpa using hcol
+    | true =>
+      simp only [↓reduceIte] at hcol ⊢
+      exact fun r hr => hcol r (hmem r hr)
+  obtain ⟨r0, hr0, hr0n⟩ := hneg
+  have ha : b.anacrusis = neg := by
+    rw [hana]
+    simp only [↓reduceIte]
+    exact anacrusis_consistent ht _ l b.divs (s.2 : Int) neg hd (by exact_mod_cast hs) hf hcol'
+      ⟨r0, (sortArr_perm true a).mem_iff.mpr hr0, hr0n⟩
+  have hnegpos : 0 < neg := by
+    have hx0 : divTriple r0 ∈ l := by
+      rw [hl]
+      exact mem_map_of_mem (f := divTriple) ((sortArr_perm true a).mem_iff.mpr hr0)
+    have h0 := ((fromArray_div true ht a dv b.divs l hfa).2 _ hx0).1
+    have h0q : (0 : Rat) ≤ (r0.onsetDiv : Rat) := by exact_mod_cast h0
+    have hc := hcons r0 hr0
+    have hprod : (b.divs : Rat) * (r0.onsetBeat * (4 / (s.2 : Rat))) < 0 := by
+      apply mul_neg_of_pos_of_neg hdq
+      apply mul_neg_of_neg_of_pos hr0n
+      positivity
+    have : (0 : Rat) < (neg : Rat) := by linarith
+    exact_mod_cast this
+  have hm1' : b.m1 = some neg := by
+    rw [hm1, ha]
+    unfold firstMeasureEnd
+    simp only [hnegpos, ↓reduceIte]
+  have hp : b.pick = neg := by
+    rw [hpick, hm1']
+    unfold pickupDivs
+    simp only [hshort, ↓reduceIte]
+  refine ⟨ha, hm1', ?_⟩
+  rw [hnotes, hl, forall₂_map_right_iff, forall₂_map_right_iff, forall₂_same]
+  intro r hr
+  have hc := hcons r (hmem r hr)
+  have hq : (backTime (some s) b.pick b.divs (divTriple r).1).1 = r.onsetBeat * (4 / (s.2 : Rat)) := by
+    rw [backTime_fst, hp]
+    push_cast
+    show ((r.onsetDiv : Rat) - (neg : Rat)) / (b.divs : Rat) = _
+    rw [hc]
+    field_simp
+    ring
+  refine ⟨rfl, ?_, hq⟩
+  rw [backTime_snd, hq]
+  field_simp
+
+-- ------------------------------------------------------------------ non-vacuity
+
+section Examples
+
+def exA (ob db : Rat) (p : Int) : ARow :=
+  { onsetBeat := ob, durBeat := db, onsetDiv := 0, durDiv := 0, pitch := p, tsBeatType := 0 }
+
+/-- a late entry: the voice comes in on the "and" of beat 3 -/
+def exLate : List ARow := [exA (5/2) (1/2) 67, exA 3 1 72, exA 4 2 74, exA 6 2 79]
+
+/-- a pickup of 5/6 of a beat -/
+def exPickup : List ARow := [exA (-5/6) (5/6) 60, exA 0 1 62, exA 1 4 64, exA 5 2 65]
+
+def summary (r : Except InvErr Back) : Option (Nat × Int × Option Int × Int × List Rat) :=
+  match r with
+  | .ok b => some (b.divs, b.anacrusis, b.m1, b.pick, b.notes.map (·.2.1))
+  | .error _ => none
+
+-- hypotheses of late_entry_not_moved / onsets_back_exact / onsets_back_late_entry are satisfiable:
+example : fromArray true false false exLate none = .ok (2, [(5, 1, 67), (6, 2, 72), (8, 4, 74), (12, 4, 79)]) := by
+  decide +kernel
+example : ∀ r ∈ exLate, r.onsetBeat.den ≤ 256 ∧ r.durBeat.den ≤ 256 ∧ 0 ≤ r.onsetBeat := by decide +kernel
+-- barebones, 4/4 sanitized (first bar complete: 8 divisions), 4/4 not sanitized: the onsets come back
+example : summary (fromArrayBack true false false exLate none none true) = some (2, 0, none, 0, [5/2, 3, 4, 6]) := by
+  decide +kernel
+example : summary (fromArrayBack true false false exLate none (some (4, 4)) true) = some (2, 0, some 8, 0, [5/2, 3, 4, 6]) := by
+  decide +kernel
+example : summary (fromArrayBack true false false exLate none (some (4, 4)) false) = some (2, 0, none, 0, [5/2, 3, 4, 6]) := by
+  decide +kernel
+-- not covered by onsets_back_late_entry (hypothesis `b.pick = 0` fails): a piece that ends before its first
+-- bar line; the only measure is short and the time maps read it as a pickup
+example : summary (fromArrayBack true false false [exA (1/2) (1/2) 60] none (some (4, 4)) true) =
+    some (2, 0, some 2, 2, [-1/2]) := by decide +kernel
+
+-- hypotheses of pickup_moved_to_zero / pickup_measure_ends_at_beat_zero / onsets_back_pickup:
+example : fromArray true false false exPickup none = .ok (6, [(0, 5, 60), (5, 6, 62), (11, 24, 64), (35, 12, 65)]) := by
+  decide +kernel
+example : summary (fromArrayBack true false false exPickup none (some (4, 4)) true) =
+    some (6, 5, some 5, 5, [-5/6, 0, 1, 5]) := by decide +kernel
+example : ((5 : Int) : Rat) < barDivs (4, 4) 6 := by decide +kernel
+-- onsets_back_barebones_pickup: the documented shift
+example : summary (fromArrayBack true false false exPickup none none true) =
+    some (6, 5, none, 0, [0, 5/6, 11/6, 35/6]) := by decide +kernel
+
+/-- the same pickup as float32 stores it (`np.float32(-5/6)`, nearer to 0 than -5/6): the divisions
+    and onsets are those of -5/6 (limit_denominator), and the rounded rule still ends the pickup
+    measure at 5; the truncating rule the code had (fixes/C05-9) ends it at 4 -/
+def exPickup32 : List ARow := [exA (-13981013/16777216) (13981013/16777216) 60, exA 0 1 62, exA 1 4 64, exA 5 2 65]
+example : summary (fromArrayBack true false false exPickup32 none (some (4, 4)) true) =
+    some (6, 5, some 5, 5, [-5/6, 0, 1, 5]) := by decide +kernel
+example : truncRat ((0 : Rat) + (0 - (-13981013/16777216)) * 6 * (4 / 4)) = 4 := by decide +kernel
+
+/-- the seeded variant (round 4, change h): `onset_divs -= onset_divs.min()` whatever its sign -/
+def beatShiftAlways (rows : List (Rat × Rat)) : Int :=
+  match minList ((limited rows).map fun f => truncRat ((beatDivs rows : Rat) * f.1)) with
+  | some m => -m
+  | none => 0
+
+-- it moves the late entry to time 0; `beatShift` does not (late_entry_not_moved)
+example : beatShiftAlways (beatRows exLate) = -5 ∧ beatShift (beatRows exLate) = 0 := by decide +kernel
+-- on arrays with a pickup the two agree, which is why the existing examples did not see it
+example : beatShiftAlways (beatRows exPickup) = 5 ∧ beatShift (beatRows exPickup) = 5 := by decide +kernel
+
+/-- an array with both kinds of columns taken from a part in 6/8 with a pickup of one eighth
+    (2 divisions per quarter): hypotheses of onsets_back_both with neg = 1 -/
+def exBoth : List ARow :=
+  [{ onsetBeat := -1, durBeat := 1, onsetDiv := 0, durDiv := 1, pitch := 60, tsBeatType := 8 },
+   { onsetBeat := 0, durBeat := 3, onsetDiv := 1, durDiv := 3, pitch := 62, tsBeatType := 8 },
+   { onsetBeat := 3, durBeat := 3, onsetDiv := 4, durDiv := 3, pitch := 64, tsBeatType := 8 }]
+example : summary (fromArrayBack true true true exBoth none (some (6, 8)) true) =
+    some (2, 1, some 1, 1, [-1/2, 0, 3/2]) := by decide +kernel
+example : (match fromArrayBack true true true exBoth none (some (6, 8)) true with
+    | .ok b => some (b.notes.map (·.2.2))
+    | .error _ => none) = some [-1, 0, 3] := by decide +kernel
+example : ∀ r ∈ exBoth, (r.onsetDiv : Rat) = (2 : Rat) * (r.onsetBeat * (4 / 8)) + 1 := by decide +kernel
+
+end Examples
+
 end C05
